@@ -557,7 +557,8 @@ def dieudonne_cases(draw, tier):
     r = draw(st.sampled_from([n] * 5 + [0] + ([n - 1] * 2 if n >= 2 else []) + ([n - 2] * 2 if n >= 3 else [])))
     s, skind = draw(gen.spectrum(r, kinds=("distinct", "repeated", "clustered", "geometric", "allequal"),
                                  cond_max=1e3))
-    e = draw(st.sampled_from([0, 0, 0, -6, -2, 2, 6]))
+    e = draw(st.sampled_from([0, 0, 0, -6, -2, 2, 6, -40, -25, -12, 12, 25, 40]))
+    e = int(np.sign(e)) * min(abs(e), 270 // n)      # the determinant itself (~10^(n e)) stays representable
     s = s * 10.0 ** e
     A = draw(gen.matrix_with_svals(n, n, np.concatenate([s, np.zeros(n - r)])))
     sb, _ = draw(gen.spectrum(n, kinds=("distinct", "repeated", "geometric", "allequal"), cond_max=1e3))
